@@ -1540,7 +1540,9 @@ def convert_from_interleaved(args):
     symbol_map = get_symbol_map(inputs)
     eq = ",".join("".join(symbol_map[ix] for ix in term) for term in inputs)
     if nargs % 2 == 1:
-        # has output specified
+        # has output specified, n.b. like numpy allow an ellipsis here even if
+        # no input has one, it then stands for zero dimensions
+        symbol_map.setdefault(..., "...")
         eq += f"->{''.join(symbol_map[ix] for ix in args[-1])}"
     else:
         # output is implicit: like numpy, the indices which appear once, in
